@@ -73,6 +73,8 @@ class G:
         rng = self.rng
         s = {"id": self.nid("P"), "type": "splitter", "pdelay": delay_spec(rng, self.lat), "blocking": rng.random() < 0.75,
              "setup": rng.choice([0, 0, 1])}
+        if rng.random() < 0.25:
+            s["split_quantity"] = rng.choice([1, 2, 3])        # a parameter of the other mode: must make no difference when unpacking
         self.nodes.append(s)
         return s
 
